@@ -252,6 +252,6 @@ def check(run):
     run.assumptions.append("per-dialect meaning of the shared text: precedence (C05), literals (C03), identifiers (C04), keyword tables (C07/C08)")
     run.assumptions.append("NOT decided: that the three engines return identical results (needs execution)")
     run.delegate("C05", "the same expression tree must group the same way under each dialect's own precedence table", only_rules={"R4", "R5"})
-    run.delegate("C08", "a clause or keyword that one backend drops or spells differently makes the backends disagree (field consumption, keyword tables incl. the MySQL NULLS emulation)", only_rules={"R3", "R5"})
-    run.delegate("C07", "the same for the SQLite renderers", only_rules={"R3", "R4"})
+    run.delegate("C08", "a clause or keyword that one backend drops or spells differently makes the backends disagree (field consumption, keyword tables incl. the MySQL NULLS emulation)", only_rules={"R3", "R5", "R6"})
+    run.delegate("C07", "the same for the SQLite renderers", only_rules={"R3", "R4", "R6"})
     run.delegate("C03", "a literal that one dialect decodes differently from the others makes the same statement denote different values", only_rules={"R1", "R2"})
